@@ -312,6 +312,21 @@ def wl_join(ctx, rng, case):
         for key in keys:
             ctx.check(sA.check(key) >= cA[key] + cB[key], "estimate after join below the sum of the operands' true counts", key=key, got=sA.check(key), want=cA[key] + cB[key])
     ctx.count("joins_compared")
+    # the receiver of that join becomes the ARGUMENT of further joins: into a fresh sketch (which must then hold both streams) and
+    # into a sketch loaded from an export of the first operand's own stream
+    total = cls(width=width, depth=depth, **bl.kw_hash(hf))
+    total.join(sA)
+    ctx.check(bytes(total) == bytes(sAB), "a fresh sketch that joins the result of an earlier join does not hold both streams",
+              got=refimpl.parse_cms(bytes(total)), want=refimpl.parse_cms(bytes(sAB)))
+    onlyA = cls(width=width, depth=depth, **bl.kw_hash(hf))
+    apply_stream(onlyA, A)
+    restored = cls.frombytes(bytes(onlyA), **bl.kw_hash(hf))
+    restored.join(sA)
+    twice = cls(width=width, depth=depth, **bl.kw_hash(hf))
+    apply_stream(twice, A + A + B)
+    ctx.check(bytes(restored) == bytes(twice), "a loaded sketch that joins the result of an earlier join differs from the sketch fed all streams",
+              got=refimpl.parse_cms(bytes(restored)), want=refimpl.parse_cms(bytes(twice)))
+    ctx.count("chained_joins_compared")
     # a sketch joined with ITSELF equals the sketch fed its stream twice
     s1 = cls(width=width, depth=depth, **bl.kw_hash(hf))
     s2 = cls(width=width, depth=depth, **bl.kw_hash(hf))
